@@ -73,6 +73,6 @@ func main() {
 			cfgs = append(cfgs, rig.Cfg{Policy: "gradual", DownAfter: da, LagLimit: 10, W: 3, M: m, Start: start})
 		}
 	}
-	rig.Main(&rig.Plan{ID: "C28", Level: "model_checking", Configs: cfgs, Depth: 5, FullDepth: 2, Oracle: oracle,
+	rig.Main(&rig.Plan{ID: "C28", Level: "model_checking", Configs: cfgs, Depth: 6, FullDepth: 2, Oracle: oracle,
 		Assume: []string{"'passed a health probe' = Gaea's checkInstanceStatus succeeds: a check connection is obtained and the health SQL succeeds, or it fails with a non-fatal error and ping + `select 1` succeed"}})
 }
